@@ -44,6 +44,8 @@ type SpecFuncInfo struct {
 	def       *smt.DefFun
 	defDeps   []string
 	building  bool
+	discovering bool
+	hidden    []string // heap entries read by a recursive spec function (hidden parameters)
 }
 
 type GhostFieldInfo struct {
